@@ -13,6 +13,7 @@ import (
 	"sort"
 	"strings"
 
+	"github.com/gogo/protobuf/proto"
 	"github.com/pokt-network/pocket-core/app"
 	"github.com/pokt-network/pocket-core/codec"
 	sdk "github.com/pokt-network/pocket-core/types"
@@ -25,13 +26,13 @@ import (
 )
 
 type entry struct {
-	name    string             // Go-level type name (used in the PROPFAIL signature)
-	mk      func() interface{} // pointer to a zero value
-	amino   bool               // legacy amino binary is expected to round-trip this type
-	json    bool               // amino-JSON is expected to round-trip this type
-	msgPick int                // for StdTx: which message type goes into Msg (-1 = random)
-	variant string
-	noSwitch bool              // never stored through the height-switched codec (node-local cache types)
+	name     string             // Go-level type name (used in the PROPFAIL signature)
+	mk       func() interface{} // pointer to a zero value
+	amino    bool               // legacy amino binary is expected to round-trip this type
+	json     bool               // amino-JSON is expected to round-trip this type
+	msgPick  int                // for StdTx: which message type goes into Msg (-1 = random)
+	variant  string
+	noSwitch bool // never stored through the height-switched codec (node-local cache types)
 }
 
 func mkOf(proto interface{}) func() interface{} {
@@ -45,7 +46,7 @@ func registry() []entry {
 		n := reflect.TypeOf(c()).Elem()
 		hasMap := n == reflect.TypeOf(nodestypes.MsgStake{}) // go-amino has no map support
 		es = append(es, entry{name: "StdTx", mk: mkOf(authtypes.StdTx{}), amino: !hasMap, json: true, msgPick: i,
-			variant: strings.ReplaceAll(n.String(), "types.", pkgShort(n) + ".")})
+			variant: strings.ReplaceAll(n.String(), "types.", pkgShort(n)+".")})
 	}
 	add := func(name string, v interface{}, amino, json bool) {
 		es = append(es, entry{name: name, mk: mkOf(v), amino: amino, json: json, msgPick: -1, variant: "-"})
@@ -182,6 +183,11 @@ func main() {
 		}
 		t.Line("schema", false, "schema %s %s => -", k, spec)
 		nschema++
+	}
+	// the interface registry as data: Any type URL -> schema of the registered message type
+	for _, c := range msgCtors {
+		m := c()
+		t.Line("anyurl", false, "anyurl %s %s => -", hex.EncodeToString([]byte("/"+proto.MessageName(m))), d.protoNameOf(reflect.TypeOf(m)))
 	}
 	extra := map[string]interface{}{"proto_files": len(files), "schemas": nschema}
 
